@@ -178,7 +178,7 @@ CHECKS = {
             "implementation: every reader (all option values, and the extension-dispatching opener) on valid documents, structure-aware "
             "mutations/truncations/splices, wrong-format documents, random bytes, transport streams with malformed PES payloads / data "
             "units / teletext packets inside a valid packet layer (the teletext model is value-compared on the hostile payloads); every "
-            "writer on cue lists with every optional part absent and hostile text; all under recover() and a 5 s watchdog. Panics that "
+            "writer on cue lists with every optional part absent and hostile text; all under recover() and a 15 s watchdog. Panics that "
             "originate inside the third-party demultiplexer are excluded, as the property states.",
             "Rocq totality proofs for the six reader and five writer models + structure-aware mutation under recover()/watchdog on the implementation",
             "not reached by the models: encoding/xml's tokenizer on arbitrary bytes, the transport-stream demultiplexer and PID detection, "
@@ -316,7 +316,11 @@ CHECKS = {
             "tables, bits.Reverse8): the Hamming table equals the standard's nearest-code-word decoder on every byte (round trip on the 16 "
             "nibbles, all single errors corrected, all double errors rejected), bit reversal is involutive, parity/cell tables characterised "
             "on all 256 bytes (a byte failing parity contributes no text), the national option changes exactly the 13 positions for every "
-            "entry of teletextCharsets; unit, packet, header and row codecs round-trip for ALL values; and the stream-level statement: for "
+            "entry of teletextCharsets; the code's character tables EQUAL the tables of ETS 300 706 written by hand in Coq (Model/TtxStd.v: "
+            "Latin G0, the 13 national sub-sets, the alphabetic columns of the Cyrillic and Greek sets, the designation table 32) at every "
+            "asserted position, re-proved each run (C06_tables_are_standard, C06_designation_map_is_standard) - the first sweep found "
+            "seven groups of wrong entries in the library, repaired by fix commits; Hamming 24/18 (encoder/decoder from clause 8.3): round "
+            "trip, single errors corrected, double errors rejected for all 2^18 words; X/28 and M/29 triplets are decoded with it; unit, packet, header and row codecs round-trip for ALL values; and the stream-level statement: for "
             "EVERY ground-truth page schedule, EVERY multiplexing in the decidable class mux_ok (stuffing / non-subtitle / wrong-framing / "
             "short units, uncorrectable addresses and corrected single-bit Hamming errors, rows and pages of other magazines in parallel "
             "mode, X/26 X/27 X/30 X/31, X/28 and M/29 character-set designation packets with their exact semantics - the last designation "
@@ -333,7 +337,9 @@ CHECKS = {
             "Rocq proof over a Gallina model of the teletext page buffer/decoder with tables regenerated from the code + extracted-model differential correspondence + schedule oracle through the real transport-stream path",
             "the third-party demultiplexer (astits) is not modelled: 'astits delivers, for the selected PID, the PES payloads with their "
             "PTS/PCR times and the PMT descriptors as the muxer wrote them' is a named contract, exercised only by the TS-level oracle "
-            "suites; PES-level noise (no time, other identifier, empty payload, truncated last unit) and PID detection are harness-only; "
+            "suites; the standard's tables in Model/TtxStd.v are written from memory of ETS 300 706 (no copy in the sandbox; positions not "
+            "known with confidence - Turkish 2/3, punctuation columns of Cyrillic/Greek, Arabic and Hebrew sets, which the library does "
+            "not implement - are left unasserted) and are a trusted input; PID detection and other PIDs are harness-only; "
             "attributes or a start box after the end box, repeated rows in one instance and a row whose only start box is destroyed by a "
             "parity error are modelled and value-compared but outside the stream theorem's class (notes/C06.md); every theorem of Properties/C06.v is closed under the global context."),
     "C20": (True,
